@@ -123,6 +123,15 @@ def main():
             plain["data_config"]["val_labels_path"] = one
         if job.get("test"):
             plain["data_config"]["test_file_path"] = plain["data_config"]["val_labels_path"]
+        if job.get("lean") and not job["structured"]:
+            # a hand-written YAML that leaves out the entries the trainer itself treats as optional (it guards each with
+            # `"<key>" in <section>`), and lets the trainer derive the crop size
+            plain["data_config"]["preprocessing"].pop("min_crop_size", None)
+            plain["data_config"].pop("chunk_size", None)
+            if not job.get("test"):
+                plain["data_config"].pop("test_file_path", None)
+            if job["model"] == "centered_instance":
+                plain["data_config"]["preprocessing"]["crop_hw"] = None
         if job["structured"]:
             from sleap_nn.config.training_job_config import TrainingJobConfig
             from sleap_nn.config.data_config import DataConfig
